@@ -33,6 +33,22 @@ def queue_item_prob_spellings(ctx, recv_self, recv_other):
     return sp
 
 
+def _inexact_compare(stmts, terms):
+    """A comparison whose operand merely *contains* a tracked spelling (arithmetic, abs(), round(), ...)."""
+    for st in stmts:
+        for n in ast.walk(st):
+            if isinstance(n, ast.Compare):
+                for opnd in [n.left] + list(n.comparators):
+                    if terms.of(opnd) is None or (isinstance(terms.of(opnd), tuple)):
+                        inner = [m for m in ast.walk(opnd) if isinstance(m, ast.expr) and U(m) in terms.sp]
+                        if inner and U(opnd) not in terms.sp:
+                            return U(n)[:100]
+            if isinstance(n, ast.Call) and call_name(n) in ('math.isclose', 'isclose'):
+                if any(U(m) in terms.sp for a in n.args for m in ast.walk(a)):
+                    return U(n)[:100]
+    return None
+
+
 def r1_heap_order(ctx, rule):
     qual = QI + '__lt__'
     fn = ctx.fn(qual)
@@ -63,7 +79,13 @@ def r1_heap_order(ctx, rule):
         outs = table[key]
         vals = {d for k, d, t in outs if k == 'return'}
         if any(k != 'return' for k, d, t in outs) or 'unknown' in vals or 'expr' in vals:
-            ctx.unk(rule, qual, 'cannot evaluate __lt__ for state A %s B' % key[0], facts)
+            inexact = _inexact_compare(body2, terms)
+            if inexact:
+                ctx.bad(rule, qual, 'inexact comparison: ' + inexact,
+                        'the heap order must be decided by an exact comparison of the two probabilities; comparing '
+                        'through arithmetic (a tolerance) makes distinct probabilities tie and pop out of order', facts, fn)
+            else:
+                ctx.unk(rule, qual, 'cannot evaluate __lt__ for state A %s B' % key[0], facts)
             return
         if vals != {exp}:
             good = False
@@ -254,6 +276,24 @@ def summarise_find_prob(ctx, rule, qual=PG + '_find_prob'):
     facts['impure'] = impure
     facts['shape'] = 'fold'
     return facts
+
+
+def r3b_prob_pure(ctx, rule):
+    qual = PG + '_find_prob'
+    f = summarise_find_prob(ctx, rule, qual)
+    if f is None:
+        return
+    if f.get('impure') is None:
+        fn = ctx.repo.fn(qual)
+        imp = [U(n) for n in walk_local(fn) if isinstance(n, (ast.Attribute, ast.Subscript))
+               and isinstance(n.ctx, (ast.Store, ast.Del))]
+        f['impure'] = imp
+    if f['impure']:
+        ctx.bad(rule, qual, 'side effects: %s' % f['impure'][:3],
+                '_find_prob must be a pure function: every parent recomputes its co-parents\' probabilities with it '
+                'and the adoption decision needs all of them to see the same values', f, ctx.repo.fn(qual))
+    else:
+        ctx.ok(rule, qual, '_find_prob has no stores to attributes/subscripts/globals and calls nothing', f)
 
 
 def r3_prob_fold(ctx, rule):
@@ -535,10 +575,99 @@ def r7_determinism(ctx, rule):
                'loader and guess expansion', {'reachable_functions': len(par), 'call_sites': ncalls})
 
 
+def r8_uniform_scale(ctx, rule):
+    """All base-structure probabilities are loaded through one loop-invariant transformation of the file value."""
+    qual = GIO + '_load_base_structures'
+    fn = ctx.fn(qual)
+    tgt = params(fn)[0]
+    mod = ctx.repo.modules[qual.partition('::')[0]]
+    loops = []
+    for n in walk_local(fn):
+        if isinstance(n, (ast.For, ast.While)):
+            if any(isinstance(c.func, ast.Attribute) and c.func.attr == 'append' and U(c.func.value) == tgt
+                   for c in calls_in(n)):
+                # innermost such loop
+                loops.append(n)
+    if not loops:
+        ctx.unk(rule, qual, 'no loop that appends to %s' % tgt)
+        return
+    loop = loops[-1]
+    # the expression stored under 'prob'
+    prob_expr = None
+    for d in pt_like_dicts(loop):
+        if 'prob' in d:
+            prob_expr = d['prob']
+    if prob_expr is None:
+        ctx.unk(rule, qual, "no {'prob': ...} record built in the loading loop")
+        return
+    top = list(loop.body)
+
+    def top_index(node):
+        cur = node
+        while cur is not None and not any(cur is t for t in top):
+            cur = mod.parents.get(id(cur))
+        return next((i for i, t in enumerate(top) if t is cur), None)
+    stored_in_loop = {}
+    for n in ast.walk(loop):
+        if isinstance(n, ast.Name) and isinstance(n.ctx, ast.Store):
+            stored_in_loop.setdefault(n.id, []).append(n)
+    loopvars = {n.id for n in ast.walk(loop.target) if isinstance(n, ast.Name)} if isinstance(loop, ast.For) else set()
+    seen, carried = set(), []
+    todo = [(prob_expr, top_index(prob_expr))]
+    while todo:
+        e, at = todo.pop()
+        if at is None:
+            at = len(top)
+        for n in ast.walk(e):
+            if isinstance(n, ast.Name) and isinstance(n.ctx, ast.Load) and (n.id, at) not in seen:
+                seen.add((n.id, at))
+                if n.id not in stored_in_loop:
+                    continue          # loop-invariant
+                # latest unconditional top-level definition before the use
+                d = None
+                for i in range(at - 1, -1, -1):
+                    t = top[i]
+                    if isinstance(t, ast.Assign) and any(isinstance(x, ast.Name) and x.id == n.id for x in t.targets):
+                        d = (t, i)
+                        break
+                if d is not None:
+                    # any conditional store between the definition and the use makes it path-dependent
+                    todo.append((d[0].value, d[1]))
+                    continue
+                if n.id in loopvars:
+                    continue
+                carried.append(n.id)
+    seen = {a for a, _ in seen}
+    facts = {'prob_expression': U(prob_expr), 'feeding_names': sorted(seen), 'loop_carried': sorted(set(carried))}
+    # the loop variable itself is re-bound per line; a name that is assigned both outside and inside the loop carries
+    # state from one line to the next
+    carried = sorted(set(carried) - {getattr(loop.target, 'id', None)})
+    if carried:
+        ctx.bad(rule, qual, 'loop-carried scale: ' + ', '.join(carried),
+                'the probability of a base structure depends on lines read earlier in the same pass (the scaling '
+                'factor changes while loading): structures before and after are scaled differently, which breaks '
+                'probability order and the rescaling promise of --skip_brute', facts, loop)
+    else:
+        ctx.ok(rule, qual, 'each base probability is a loop-invariant function of its own line', facts)
+
+
+def pt_like_dicts(node):
+    out = []
+    for n in walk_local(node):
+        if isinstance(n, ast.Dict):
+            d = {}
+            for k, v in zip(n.keys, n.values):
+                c = const(k) if k is not None else NOCONST
+                if isinstance(c, str):
+                    d[c] = v
+            out.append(d)
+    return out
+
+
 def rules(tier):
     return [('C01.R1', r1_heap_order), ('C01.R2', r2_heap_ownership), ('C01.R3', r3_prob_fold),
             ('C01.R4', r4_prob_pt_coupling), ('C01.R5', r5_successor), ('C01.R6', r6_loader_order),
-            ('C01.R7', r7_determinism)]
+            ('C01.R7', r7_determinism), ('C01.R8', r8_uniform_scale)]
 
 
 META = {
